@@ -191,8 +191,11 @@ func verifC04Rules() {
 func verifC04RetryRules() {
 	st, tr, c := vC06Setup()
 	hrr := vServerHello(vHRRRandom, st.first.outer.sid)
-	n, err := c.Write(hrr)
-	vAssert(err == nil && n == len(hrr), "HelloRetryRequest forwarded")
+	// the backend's Write may end in the middle of its next record (the head of a change_cipher_spec record)
+	ccs := vRecord(20, 0x0303, []byte{1})
+	part := ccs[:vInt(0, 5)]
+	n, err := c.Write(vCat(hrr, part))
+	vAssert(err == nil && n == len(hrr)+len(part), "HelloRetryRequest forwarded")
 	variant := vInt(1, 14)
 	rec, _, class, desc := vSecondHello(st, variant)
 	before := len(tr.out)
